@@ -152,5 +152,11 @@ fn main() {
     run.ev.set("samples", json!([{"k": 2, "adds": 10, "rng_per_add": [[], [], [1], [3], [0], [2], [5], [1], [1, 40], []], "checked": "len = min(n,k), items are distinct stream positions < n, prefix while n <= k, i() = n, is_empty() false"}]));
     run.ev.set("rule", json!("BFS over (reservoir positions, i, skip_until capped at the horizon) for n up to the horizon, with clear() as a second operation (restarts the count); every add is executed once per RNG outcome: every value of every integer draw, unit draws from an 78-value alphabet (extremes 0, 2^-52, 1-2^-52, dyadic points, 64-point grid)"));
     run.ev.assume("unit alphabet contains only values the real generator can return (multiples of 2^-52 in [0,1)); raw-word behaviour of the real rand crate is covered by mc-real");
+    // the Extend implementations deliver the same streams: extend(chunk1); extend(chunk2) == add loop
+    let (xp_cases, xp_viols) = checks::extendpaths::reservoir("C18", if thorough { &[1, 2, 3, 5] } else { &[1, 2, 3] });
+    for v in xp_viols {
+        run.violation(v);
+    }
+    run.ev.set("extend_path_cases", serde_json::json!(xp_cases));
     run.finish();
 }
